@@ -182,8 +182,8 @@ pub fn pipeline(text: &str, prints: bool) -> Outcome {
 // the scc binary
 // ------------------------------------------------------------------------------------------------
 
-pub struct Cli { pub scc: PathBuf, pub work: PathBuf, pub note: String }
-impl Cli { fn with(&self, scc: &Path) -> Cli { Cli { scc: scc.to_path_buf(), work: self.work.clone(), note: self.note.clone() } } }
+pub struct Cli { pub scc: PathBuf, pub work: PathBuf, pub note: String, pub release: Option<PathBuf> }
+impl Cli { fn with(&self, scc: &Path) -> Cli { Cli { scc: scc.to_path_buf(), work: self.work.clone(), note: self.note.clone(), release: None } } }
 pub struct CliRes { pub code: Option<i32>, pub signal: Option<i32>, pub stderr: String, pub timed_out: bool }
 
 /// the scc binaries: $VERIF_SCC (debug profile: overflow checks and debug assertions are on) and $VERIF_SCC_RELEASE, else built
@@ -271,10 +271,21 @@ fn run_cli(cli: &Cli, k: usize, bytes: &[u8], inproc: Option<&Outcome>, depth: O
     let mut viols = Vec::new();
     let mut rv = None;
     let second = if k % 2 == 0 { "aarch64" } else { "rv64" };
-    for (cmd, args) in [("check", vec!["check", name.as_str()]), ("compile", vec!["compile", name.as_str()]), ("codegen-x86", vec!["codegen", name.as_str(), "x86-64"]), ("codegen-second", vec!["codegen", name.as_str(), second])] {
+    let mut cmds = vec![("check", vec!["check", name.as_str()]), ("compile", vec!["compile", name.as_str()]), ("codegen-x86", vec!["codegen", name.as_str(), "x86-64"]), ("codegen-second", vec!["codegen", name.as_str(), second])];
+    // every third input also through the commands that print the later representations, and the formatter
+    if k % 3 == 0 { cmds.push(("linearize", vec!["linearize", name.as_str()])); cmds.push(("fmt", vec!["fmt", name.as_str()])); }
+    for (cmd, args) in cmds {
         let cmdname = if cmd == "codegen-second" { format!("codegen-{second}") } else { cmd.to_string() };
-        let r = cli.run(&args, limit_ms);
-        let j = judge_cli(&cmdname, &r, inproc, depth);
+        let mut r = cli.run(&args, limit_ms);
+        let mut j = judge_cli(&cmdname, &r, inproc, depth);
+        // the stack frames of the debug profile are several times larger than those of an installed (release) scc:
+        // a stack exhaustion of the debug binary is judged on the release binary
+        if let (Err(v), Some(rel)) = (&j, &cli.release) {
+            if v.starts_with("class=stack-exhaustion") {
+                r = cli.with(rel).run(&args, limit_ms);
+                j = judge_cli(&cmdname, &r, inproc, depth).map(|t| format!("{t}:release-after-debug-stack-exhaustion"));
+            }
+        }
         if cmd == "check" {
             if let (Some(o), Some(code)) = (inproc, r.code) {
                 if (code == 0) != o.accepted && o.viols.is_empty() { viols.push(format!("class=cli-inconsistent scc check exits with {code} but in-process acceptance is {}", o.accepted)); }
@@ -354,7 +365,7 @@ fn run_deep(dir: &Path, k: usize, i: &Input, cli_release: Option<&Cli>, limit_ms
     }
     if let Some(c) = cli_release {
         res.cli = true;
-        let c = Cli { scc: c.scc.clone(), work: dir.to_path_buf(), note: String::new() };
+        let c = Cli { scc: c.scc.clone(), work: dir.to_path_buf(), note: String::new(), release: None };
         let name = format!("deep{k}.sc");
         for (cmd, a) in [("check", vec!["check", name.as_str()]), ("codegen-x86", vec!["codegen", name.as_str(), "x86-64"])] {
             let r = c.run(&a, limit_ms);
@@ -558,6 +569,57 @@ fn entry_inputs() -> Vec<Input> {
         v.push(("runtime-symbol-type", format!("data {s} {{ Mk{s}(x: i64) }}\ndef main(): i64 {{ Mk{s}(1).case {{ Mk{s}(y) => y }} }}\n")));
     }
     v.into_iter().map(|(d, t)| { let mut i = inp("entry", d.to_string(), t.into_bytes()); i.force_cli = true; i }).collect()
+}
+
+/// hand-written corner cases of the language (valid and invalid), all through the binary as well
+fn stress_inputs() -> Vec<Input> {
+    let p = PRELUDE;
+    let many = |n: usize, f: &dyn Fn(usize) -> String, sep: &str| (0..n).map(f).collect::<Vec<_>>().join(sep);
+    let v: Vec<(&str, String)> = vec![
+        ("empty-codata-new", "codata Top { }\ndef main(): i64 { let t: Top = new { }; 0 }\n".into()),
+        ("empty-data-case", "data Void { }\ndef f(v: Void): i64 { v.case { } }\ndef main(): i64 { 0 }\n".into()),
+        ("empty-data-unused", "data Void { }\ncodata Top { }\ndef main(): i64 { 0 }\n".into()),
+        ("goto-in-goto", "def main(): i64 { label a { goto a (goto a (1)) } }\n".into()),
+        ("exit-in-exit", "def main(): i64 { exit (exit 1) }\n".into()),
+        ("exit-in-operand", "def main(): i64 { (exit 1) + (exit 2) }\n".into()),
+        ("infinite-recursion", "def f(): i64 { f() }\ndef main(): i64 { f() }\n".into()),
+        ("label-same-name-nested", "def main(): i64 { label a { label a { goto a (1) } } }\n".into()),
+        ("label-shadows-variable", "def main(a: i64): i64 { label a { goto a (2) } }\n".into()),
+        ("variable-shadows-label", "def main(): i64 { label a { let a: i64 = 1; goto a (a) } }\n".into()),
+        ("goto-from-cocase", format!("{p}def main(): i64 {{ label a {{ (new {{ ap(x) => goto a (x) }}).ap[i64, i64](3) }} }}\n")),
+        ("let-self-reference", "def main(): i64 { let x: i64 = x; x }\n".into()),
+        ("let-shadowing", "def main(x: i64): i64 { let x: i64 = x + 1; let x: i64 = x * 2; x }\n".into()),
+        ("goto-variable", "def main(x: i64): i64 { goto x (1) }\n".into()),
+        ("covariable-as-term", "def main(): i64 { label a { a } }\n".into()),
+        ("covariable-argument", "def f(k: cns i64): i64 { goto k (1) }\ndef main(): i64 { label a { f(a) } }\n".into()),
+        ("covariable-object-argument", format!("{p}def f(k: cns List[i64]): List[i64] {{ goto k (Nil) }}\ndef main(): i64 {{ (label a {{ f(a) }}).case[i64] {{ Nil => 0, Cons(x, xs) => x }} }}\n")),
+        ("type-arguments-on-monomorphic", "data B { T, F }\ndef main(): i64 { T.case[i64] { T => 1, F => 0 } }\n".into()),
+        ("compare-objects", format!("{p}def main(): i64 {{ if Nil == Nil {{ 1 }} else {{ 2 }} }}\n")),
+        ("print-object", format!("{p}def main(): i64 {{ print_i64(Nil); 0 }}\n")),
+        ("division-by-literal-zero", "def main(x: i64): i64 { (x / 0) + (x % 0) }\n".into()),
+        ("minimum-by-arithmetic", "def main(): i64 { (0 - 9223372036854775807) - 1 }\n".into()),
+        ("constructor-200-arguments", format!("data T {{ C({}) }}\ndef main(): i64 {{ C({}).case {{ C({}) => a0 }} }}\n", many(200, &|i| format!("a{i}: i64"), ", "), many(200, &|i| i.to_string(), ", "), many(200, &|i| format!("a{i}"), ", "))),
+        ("same-constructor-in-two-types", "data A { C }\ndata B { C }\ndef main(): i64 { 0 }\n".into()),
+        ("type-parameter-named-like-type", "data List[List] { Nil, Cons(x: List, xs: List[List]) }\ndef main(): i64 { 0 }\n".into()),
+        ("type-parameter-twice", "data P[A, A] { MkP(x: A) }\ndef main(): i64 { 0 }\n".into()),
+        ("non-regular-type", "data N[A] { Z, S(x: N[N[A]]) }\ndef f(y: N[i64]): i64 { y.case[i64] { Z => 0, S(x) => x.case[N[i64]] { Z => 1, S(z) => 2 } } }\ndef main(): i64 { f(S(S(Z))) }\n".into()),
+        ("clause-binds-twice", format!("{p}def main(): i64 {{ Cons(1, Nil).case[i64] {{ Nil => 0, Cons(x, x) => 1 }} }}\n")),
+        ("clause-twice", format!("{p}def main(): i64 {{ Cons(1, Nil).case[i64] {{ Nil => 0, Nil => 1, Cons(x, xs) => 1 }} }}\n")),
+        ("generated-names", "def main(x0: i64, a0: i64): i64 { let x1: i64 = x0 + a0; label a1 { if x1 == 0 { goto a1 (x0) } else { x1 } } }\n".into()),
+        ("lifted-names", "def lift_main_0(x: i64): i64 { x }\ndef main_lift_0(x: i64): i64 { x }\ndef main(x: i64): i64 { label a { if x == 0 { goto a (lift_main_0(x)) } else { main_lift_0(x) } } }\n".into()),
+        ("closure-captures-many", format!("{p}def main(): i64 {{ {} let f: Fun[i64, i64] = new {{ ap(y) => {} }}; f.ap[i64, i64](1) }}\n", many(40, &|i| format!("let v{i}: i64 = {i};"), " "), (0..40).fold("y".to_string(), |acc, i| format!("({acc} + v{i})")))),
+        ("closure-captures-too-many", format!("{p}def main(): i64 {{ {} let f: Fun[i64, i64] = new {{ ap(y) => {} }}; f.ap[i64, i64](1) }}\n", many(150, &|i| format!("let v{i}: i64 = {i};"), " "), (0..150).fold("y".to_string(), |acc, i| format!("({acc} + v{i})")))),
+        ("stream-of-streams", format!("{p}def ss(): Stream[Stream[i64]] {{ new {{ hd => new {{ hd => 1, tl => ss().hd[Stream[i64]] }}, tl => ss() }} }}\ndef main(): i64 {{ ss().tl[Stream[i64]].hd[Stream[i64]].hd[i64] }}\n")),
+        ("mutual-recursion-through-codata", format!("{p}def ev(n: i64): Fun[i64, i64] {{ new {{ ap(x) => if n == 0 {{ x }} else {{ od(n - 1).ap[i64, i64](x + 1) }} }} }}\ndef od(n: i64): Fun[i64, i64] {{ new {{ ap(x) => ev(n).ap[i64, i64](x) }} }}\ndef main(n: i64): i64 {{ ev(n).ap[i64, i64](0) }}\n")),
+        ("comment-only-lines-and-bars", "// | a table line\n//|\n// \n//\ndef main(): i64 { // tail\n 1 // | x\n }\n".into()),
+        ("crlf-line-ends", "def main(): i64 {\r\n  1\r\n}\r\n".into()),
+        ("tabs-formfeeds", "def\tmain(\x0c)\x0b: i64 { 1 }\n".into()),
+        ("unicode-blanks", "def\u{a0}main():\u{2003}i64\u{3000}{ 1\u{2028}}\n".into()),
+        ("bom-first", "\u{feff}def main(): i64 { 1 }\n".into()),
+        ("no-final-newline", "def main(): i64 { 1 }".into()),
+        ("zero-width-space-in-name", "def ma\u{200b}in(): i64 { 1 }\n".into()),
+    ];
+    v.into_iter().map(|(d, t)| { let mut i = inp("stress", d.to_string(), t.into_bytes()); i.force_cli = true; i }).collect()
 }
 
 /// long single lines: miette's graphical report handler pads to the column of a label
@@ -784,6 +846,7 @@ pub fn cmd_robust(seed: u64, n: usize, out: &mut dyn Write, args: &[String]) {
     if n > 0 { inputs.extend(literal_inputs()); }
     // (f)
     if n > 0 { inputs.extend(entry_inputs()); }
+    if n > 0 { inputs.extend(stress_inputs()); }
     // long lines (through the binary: the report renderer)
     if n > 0 { inputs.extend(longline_inputs()); }
     // (g)
@@ -810,11 +873,12 @@ pub fn cmd_robust(seed: u64, n: usize, out: &mut dyn Write, args: &[String]) {
     if let Some(o) = &only { inputs.retain(|i| i.stream == o); }
 
     // ---- the scc binary
-    let cli: Option<Cli> = if nocli { None } else { match find_scc(false) { Ok((scc, note)) => Some(Cli { scc, work: work.clone(), note }), Err(e) => { writeln!(out, "(case cli (cli \"scc binary\" h0) (viol {}))", quote(&format!("class=scc-binary-unavailable {e}"))).unwrap(); None } } };
-    let cli_release: Option<Cli> = match (&cli, nodeep || n == 0) {
+    let cli: Option<Cli> = if nocli { None } else { match find_scc(false) { Ok((scc, note)) => Some(Cli { scc, work: work.clone(), note, release: None }), Err(e) => { writeln!(out, "(case cli (cli \"scc binary\" h0) (viol {}))", quote(&format!("class=scc-binary-unavailable {e}"))).unwrap(); None } } };
+    let cli_release: Option<Cli> = match (&cli, false) {
         (Some(c), false) => match find_scc(true) { Ok((scc, _)) => Some(c.with(&scc)), Err(e) => { writeln!(out, "(case cli-release (cli \"scc release binary\" h0) (viol {}))", quote(&format!("class=scc-binary-unavailable {e}"))).unwrap(); None } },
         _ => None,
     };
+    let cli: Option<Cli> = cli.map(|mut c| { c.release = cli_release.as_ref().map(|r| r.scc.clone()); c });
     let total = inputs.len();
     let want_cli = (n / 25).max(100);
     let cli_every = (total / want_cli.max(1)).max(1);
